@@ -695,7 +695,10 @@ def run(tier, seed):
         "`executions` and `shots` follow the simulator_tracking documentation: one execution per group of commuting measurements and per "
         "broadcast parameter value, shots = total shots x executions; circuits only use measurement sets whose grouping is unambiguous "
         "(all commute or all clash; no LinearCombination/Sum observables, no classical shadows)",
-        "resources are compared through the number of gates of each recorded SpecsResources, results through their count",
+        "resources are compared through the number of gates and the measurement processes (kind and observable shape, as a sorted "
+        "multiset) of each recorded SpecsResources, results through their count",
+        "derivatives / jvps / vjps are the numbers of circuits submitted to the entry point (simulator_tracking documentation), "
+        "whether or not a circuit has trainable parameters",
         "the wrapper sits on the device instance: it sees exactly the batches the workflow hands to the device"])
 
 
